@@ -48,6 +48,11 @@ func scenarioHistory(c *harness.Ctx) {
 		s.Model = carry
 		s.Seq = seq
 	}
+	real := tp.Bool(1, 12)
+	if real && !s.UseRealFile() {
+		return
+	}
+	defer s.Cleanup()
 	if !s.Open() {
 		return
 	}
@@ -55,6 +60,7 @@ func scenarioHistory(c *harness.Ctx) {
 	allowBig := tp.Bool(1, 30)
 	c.Config["ops"] = n
 	c.Config["writer_at"] = s.WriterAt
+	c.Config["real_file"] = real
 	c.Config["clock_jumps"] = s.Clock.JumpDen
 	c.Config["start_image_bytes"] = len(start)
 	every := 1 + tp.Choose(6)
